@@ -323,7 +323,7 @@ class CodeGenerator(nunavut._generators.AbstractGenerator):
 
         from ..lang._common import UniqueNameGenerator
 
-        # reset the name generator state for this type
+        _forget_imported_template_modules(self._env)  # like the name generator below: nothing survives from file to file
         UniqueNameGenerator.reset()
 
         # Predetermine the post processor types.
@@ -1052,3 +1052,17 @@ def _reset_line_pp(
     if callable(reset):
         reset()
     return line_pp
+
+
+def _forget_imported_template_modules(environment: "nunavut.jinja.environment.CodeGenEnvironment") -> None:
+    """
+    Jinja evaluates a template that is imported without context (``{% from 'x.j2' import y %}``) once and keeps the
+    resulting module for as long as the environment caches the template. Anything such a template keeps at its top
+    level (``{% set state = namespace(...) %}``) would therefore be shared by all files a generator writes. Dropping the
+    kept modules before each file makes every file start from the templates as written; the compiled templates stay cached.
+    """
+    cache = getattr(environment, "cache", None)
+    if cache is not None:
+        for template in list(cache.values()):
+            setattr(template, "_module", None)
+
